@@ -363,7 +363,7 @@ func VfC04_Closure() {
 //
 //vf:unwind 2000
 //vf:steps 400000000
-//vf:shards 4
+//vf:shards 6
 func VfC04_ClosureDeep() {
 	check := func(m *ir.Module, f *ir.Func) {
 		src := m.String()
@@ -378,7 +378,24 @@ func VfC04_ClosureDeep() {
 		vfObserveStr("why", why)
 		vfAssert("C04.closure-deep.every-reference-is-the-listed-definition", ok)
 	}
-	switch vfChoice("program", 4) {
+	switch vfChoice("program", 6) {
+	case 4:
+		// the two all-options texts of the C02 templates
+		m, err := ParseString("t.ll", hSoupHeaders(hLetterIn("a", 'i', 'n')))
+		vfReach("C04.closure-deep")
+		vfAssert("C04.closure-deep.accepted", err == nil)
+		if err == nil {
+			ok, _ := hClosed(m)
+			vfAssert("C04.closure-deep.every-reference-is-the-listed-definition", ok)
+		}
+	case 5:
+		m, err := ParseString("t.ll", hSoupInsts(hLetterIn("a", 'a', 'e')))
+		vfReach("C04.closure-deep")
+		vfAssert("C04.closure-deep.accepted", err == nil)
+		if err == nil {
+			ok, _ := hClosed(m)
+			vfAssert("C04.closure-deep.every-reference-is-the-listed-definition", ok)
+		}
 	case 0:
 		hC03ProgArith(check)
 	case 1:
